@@ -48,7 +48,7 @@ META = {
         "The undamaged seeds and every 7th structural fault are also run with the library's loggers at DEBUG (the --debug configuration). One fault per execution, each run through the listed entry points under a counted work budget (sys.monitoring "
         "PY_START+JUMP events <= 50 x the undamaged seed's count + 100000 + 2000 x file length). non-trivial = the damaged file differs from the seed "
         "and the outcome was judged; a 'scaling' family runs valid documents of 16/64/256 pages (classic table; everything in one "
-        "object stream) and requires that quadrupling the size multiplies the counted events by at most 6; distinct outcomes = (entry point, outcome class, exception type, raising function). "
+        "object stream) and requires that quadrupling the size multiplies the counted events by at most 6, and page trees of 6/12/24 nested levels whose Kids list the same child twice (2**d paths, d nodes) whose work may at most grow 6-fold per doubling; distinct outcomes = (entry point, outcome class, exception type, raising function). "
         "states = damaged documents reached from a seed by one fault (exhaustive single-fault frontier of the fault injector), "
         "transitions = fault applications, traces = executions of an entry point on a damaged document, each judged."
     ),
@@ -503,6 +503,25 @@ def scaling_doc(n: int, layout: str) -> bytes:
     return d.write(cat)
 
 
+def ladder_doc(d: int) -> bytes:
+    """d nested /Pages levels whose Kids list the SAME child twice: the file grows linearly with d, the number of root-to-leaf
+    paths as 2**d. Each node is visited once (C04), so the work must stay linear (added after seeded defect C13_6 was missed)."""
+    doc = Doc()
+    f1 = doc.add({"Type": N("Font"), "Subtype": N("Type1"), "BaseFont": N("Helvetica")})
+    cat = doc.reserve()
+    nodes = [doc.reserve() for _ in range(d)]
+    content = doc.add(Stream({}, b"BT /F1 9 Tf 10 10 Td (x) Tj ET"))
+    page = doc.add({"Type": N("Page"), "Parent": nodes[-1], "MediaBox": [0, 0, 50, 50], "Resources": {"Font": {"F1": f1}}, "Contents": content})
+    doc.set(cat, {"Type": N("Catalog"), "Pages": nodes[0]})
+    for i, nd in enumerate(nodes):
+        child = nodes[i + 1] if i + 1 < d else page
+        o = {"Type": N("Pages"), "Kids": [child, child], "Count": 1}
+        if i:
+            o["Parent"] = nodes[i - 1]
+        doc.set(nd, o)
+    return doc.write(cat)
+
+
 def check_scaling(st) -> None:
     """work on VALID documents grows in proportion to their size: quadrupling the number of pages must not
     multiply the counted events by more than 6 (a reparse-per-object defect gives ~16)"""
@@ -523,7 +542,20 @@ def check_scaling(st) -> None:
                 if ev[b] > 6 * ev[a]:
                     st.violation(f"C13/work-superlinear:{layout}", {"scaling": True, "layout": layout, "entry": entry, "n": [a, b]}, f"events({b} pages) <= 6 x events({a} pages)",
                                  f"{ev[a]} -> {ev[b]} events", "work grows faster than the input")
-    st.sample({"family": "scaling", "pages": [16, 64, 256], "layouts": ["table", "objstm"]})
+    for entry in ("text", "xml"):
+        ev = {}
+        for d in (6, 12, 24):
+            cls, detail, cnt = run_entry(entry, ladder_doc(d), 3 * 10**6)
+            ev[d] = cnt if cls == "ok" else 10**9
+            st.states += 1
+            st.transitions += 1
+            st.traces += 1
+        st.case(("scaling", "ladder", entry), outcome=("scaling", "ladder", entry, ev[12] * 10 // ev[6], ev[24] * 10 // ev[12]))
+        for a, b in ((6, 12), (12, 24)):
+            if ev[b] > 6 * ev[a]:
+                st.violation("C13/work-superlinear:ladder", {"scaling": True, "layout": "ladder", "entry": entry, "n": [a, b]}, f"events(depth {b}) <= 6 x events(depth {a})",
+                             f"{ev[a]} -> {ev[b]} events", "a page tree whose Kids repeat one child on every level is walked once per path")
+    st.sample({"family": "scaling", "pages": [16, 64, 256], "layouts": ["table", "objstm"], "ladder_depths": [6, 12, 24]})
 
 
 def shards(tier):
